@@ -28,7 +28,7 @@ def handleC13 (op : String) (args : Array Json) : Option Json := do
     let n ← jNat? (arg args 3)
     let b ← jNat? (arg args 4)
     let batches := if b = 0 then [] else batchRanges n b
-    let runs := (runsOf Gen.finishers 4 false fn).eraseDups
+    let runs := (runsOf Gen.finishers skipHookFinishers 4 false fn).eraseDups
     some (Json.arr (runs.map (fun run =>
       Json.arr ((compoundEvents Gen.pipelines Gen.handlers (fun h => hs.contains h) run n batches).map hevJ).toArray)).toArray)
   | "hooks.batches" =>
